@@ -120,6 +120,32 @@ def cases(rng, tier):
         esis = rng.shuffle(CG.block_esis(rng, k, rng.range(10, 13), rng.choice([0.0, 0.1, 0.5, 0.9])))
         t = rng.choice([1, 2])
         cs.append(mk(rng, k, t, rng.choice([0, 1, 251]), esis, CG.rand_data(rng, k * t)))
+    # batches (block-level API): the same kind of sets delivered in batches of several packets, with duplicates of
+    # already delivered packets placed inside and at the END of batches, before the block is decoded
+    for (k, thr, esis) in rng.shuffle(list(chosen))[: 80 if tier == "quick" else 800]:
+        bs = CG.split_batches(rng, list(esis))
+        seen = []
+        for b in bs:
+            if seen and rng.below(2) == 0:
+                b.append(rng.choice(seen))
+            if len(b) > 1 and rng.below(4) == 0:
+                b.insert(rng.below(len(b)), rng.choice(b))
+            seen += b
+        t = rng.choice([1, 2])
+        cs.append(CG.sbd_case(rng, k, t, 1, 1, thr, bs, CG.rand_data(rng, k * t)))
+    # large blocks (release): decodability and the bytes of a received set must not depend on the matrix back-end
+    cases.big = []
+    special = [835, 860, 870, 891, 913, 950, 1002, 1236, 1281, 1616, 1640, 1649, 1673, 1698, 2005]
+    # always: the block sizes whose dense tail (P = L - W columns) starts as a whole number of 64-bit words
+    wordp = [r[0] for r in C.repo_table2()[0] if (r[0] + r[2] + r[3] - r[4]) % 64 == 0 and 250 <= r[0] <= 2700]
+    for k in wordp + rng.shuffle(special)[: (4 if tier == "quick" else 15)] + [rng.range(300, 2600) for _ in range(3 if tier == "quick" else 30)]:
+        lost = set(rng.shuffle(list(range(k)))[: rng.range(1, 6)])
+        rep_ = set()
+        while len(rep_) < len(lost) + rng.choice([0, 0, 1]):
+            rep_.add(rng.range(k, (1 << 24) - 1))
+        esis = rng.shuffle([e for e in range(k) if e not in lost] + sorted(rep_))
+        data = CG.rand_data(rng, k)
+        cases.big.append((k, [CG.sbd_case(rng, k, 1, 1, 1, thr, [esis[:-1], esis[-1:]], data) for thr in (1, 100000)], data))
     kprime(1)
     cases.solver = solver_cases(rng, tier, chosen)
     # fewer than K symbols / exactly the K source symbols
@@ -153,6 +179,19 @@ def evaluate(cs, rep, tier):
             deficient += 1
         elif nb >= k:
             full += 1
+    big = getattr(cases, "big", [])
+    if big:
+        flat = [c for _, pair, _ in big for c in pair]
+        rr = C.run_impl_crashsafe(flat, "release", chunk=2, timeout=900)
+        for n, (k, pair, data) in enumerate(big):
+            rs, rd = rr[2 * n].split(), rr[2 * n + 1].split()
+            inp = pair[0].impl_line()[:300] + " ..."
+            if rs[0] != "1" or rd[0] != "1":
+                counter.append({"input": inp, "expected": "Some / None", "observed": f"sparse: {rr[2 * n][:40]} dense: {rr[2 * n + 1][:40]}", "profile": "release", "oracle": "the decoder never panics on a received set (K=%d)" % k, "replay_case": pair[0].impl_line()})
+            elif rs[1:3] != rd[1:3]:
+                counter.append({"input": inp, "expected": "the same Some/None after each batch on both matrix back-ends (decodability is a property of the received set)", "observed": f"sparse {rs[1:3]} dense {rd[1:3]}", "profile": "release", "oracle": "rank criterion: independent of the back-end (K=%d)" % k, "replay_case": pair[0].impl_line()})
+            elif rs[2] == "1" and ([int(x) for x in rs[3:]] != data or [int(x) for x in rd[3:]] != data):
+                counter.append({"input": inp, "expected": "exactly the block (the set determines it)", "observed": "an answer that is not the block: the solver answered without having solved the received system", "profile": "release", "oracle": "a Some answer is the unique solution (K=%d)" % k, "replay_case": pair[0].impl_line()})
     # disagreements on flags are counterexamples already; keep only the others as correspondence failures
     keys = set(ce["input"] for ce in counter)
     dis = [d for d in dis if d["input"][:800] not in keys]
@@ -162,7 +201,7 @@ def evaluate(cs, rep, tier):
                       "rank_deficient_sets": deficient, "full_rank_sets": full, "screening": getattr(cases, "screen", {}),
                       "samples": [cs[0].impl_line()[:200] + " ... -> " + impl[0][:50]],
                       "prefixes_compared": sum(c.args[5] for c in cs),
-                      "input_distribution": {"sets": len(cs), "rank_deficient": deficient, "full_rank": full}}}
+                      "input_distribution": {"large_blocks_both_backends_release": len(big), "sets": len(cs), "rank_deficient": deficient, "full_rank": full}}}
 
 
 def kernel_ok(c):
